@@ -1,0 +1,43 @@
+//go:build verif
+
+// Verification hooks (read-only re-exports of unexported functions): compiled only with
+// -tags verif.  Used by the C02/C06 checks to drive the client side of the handshake at
+// function level (one clientHandshake object, explicit session key, many responses).
+
+package obfs4
+
+import (
+	"crypto/hmac"
+	"crypto/sha256"
+
+	"gitlab.com/yawning/obfs4.git/common/ntor"
+)
+
+// VerifRefClientHS wraps the unexported clientHandshake.
+type VerifRefClientHS struct{ hs *clientHandshake }
+
+// VerifRefNewClientHS is newClientHandshake (draws padLen through csrand.IntRange).
+func VerifRefNewClientHS(nodeID *ntor.NodeID, serverIdentity *ntor.PublicKey, sessionKey *ntor.Keypair) *VerifRefClientHS {
+	return &VerifRefClientHS{newClientHandshake(nodeID, serverIdentity, sessionKey)}
+}
+
+// Generate is clientHandshake.generateHandshake (draws the padding, reads the epoch hour).
+func (h *VerifRefClientHS) Generate() ([]byte, error) { return h.hs.generateHandshake() }
+
+// Parse is clientHandshake.parseServerHandshake.
+func (h *VerifRefClientHS) Parse(resp []byte) (int, []byte, error) {
+	return h.hs.parseServerHandshake(resp)
+}
+
+// Fork returns a handshake object with the same keys, identity, padLen and epoch hour but an
+// empty response cache (as if the same client had not yet seen any response byte).
+func (h *VerifRefClientHS) Fork() *VerifRefClientHS {
+	c := *h.hs
+	c.mac = hmac.New(sha256.New, append(append([]byte{}, c.serverIdentity.Bytes()[:]...), c.nodeID.Bytes()[:]...))
+	c.serverRepresentative, c.serverAuth, c.serverMark = nil, nil, nil
+	return &VerifRefClientHS{&c}
+}
+
+// PadLen / EpochHour expose what the object drew / used.
+func (h *VerifRefClientHS) PadLen() int       { return h.hs.padLen }
+func (h *VerifRefClientHS) EpochHour() string { return string(h.hs.epochHour) }
